@@ -608,7 +608,11 @@ def heterogeneity_detection_rule(ctx):
                         params.add(nm)  # descriptors that accept a field
         if not params:
             continue
-        dt = [n for n in ast.walk(f.node) if isinstance(n, ast.Assign) and any(isinstance(t, ast.Name) and t.id == "dtype" for t in n.targets)]
+        # the element type of the law matrices: whatever is passed as `dtype=` to their np.array(...) literals (a local of any
+        # name, or an inline conditional); its defining assignment is the heterogeneity test
+        lits0 = [n for n in ast.walk(f.node) if isinstance(n, ast.Call) and (dotted(n.func) or "").endswith("np.array") and n.args and isinstance(n.args[0], (ast.List, ast.Tuple)) and any(k.arg == "dtype" for k in n.keywords)]
+        dnames = {k.value.id for n in lits0 for k in n.keywords if k.arg == "dtype" and isinstance(k.value, ast.Name)}
+        dt = [n for n in ast.walk(f.node) if isinstance(n, ast.Assign) and any(isinstance(t, ast.Name) and t.id in dnames for t in n.targets) and any(isinstance(x, ast.Name) and x.id in ("object", "float") for x in ast.walk(n.value))]
         if not dt:
             continue
         r.instance(fn=f.qualname)
